@@ -29,7 +29,7 @@ type CallKey struct {
 
 // Fault describes how an invocation fails.
 type Fault struct {
-	Kind string // "error" plain error; "group" ggql.Errors of N members; "gerror" *ggql.Error with extensions; "sentinel" one shared *ggql.Error instance; "nth" list accessor failure at element N
+	Kind string // "error" plain error; "group" ggql.Errors of N members; "gerror" *ggql.Error with extensions; "sentinel" one shared *ggql.Error instance; "foreign" an error of ggql's own parser for another text (N: 0 bare, 1 wrapped, 2 in a group); "nth" list accessor failure at element N
 	N    int
 }
 
